@@ -35,7 +35,7 @@ EXPECT_PROBES = ["fault_after_flip", "line_interrupt_after_flip", "outcome_ambig
 
 OPS = ["append", "append_with", "append_explicit", "multi", "delete_file", "delete_file_append", "expire",
        "expire_append", "delete_snapshot"]
-MODES_LOCAL = ["lineint:KeyboardInterrupt", "lineint:SystemExit", "err:EIO", "err:ENOSPC", "err:EACCES", "diskfull", "int:KeyboardInterrupt", "int:SystemExit",
+MODES_LOCAL = ["lineint:KeyboardInterrupt", "lineint:SystemExit", "err:EIO", "err:ENOSPC", "err:EACCES", "diskfull", "shortwrite:0.5", "shortwrite:0.9", "int:KeyboardInterrupt", "int:SystemExit",
                "intafter:KeyboardInterrupt", "double:remove", "double:unflock", "double:marker"]
 MODES_S3 = ["lineint:KeyboardInterrupt", "err:InternalError*7", "err:InternalError*2", "err:AccessDenied", "err:EndpointConnectionError*7",
             "errafter:InternalError", "errafter:EndpointConnectionError", "int:KeyboardInterrupt",
@@ -84,6 +84,8 @@ def _faults_for(mode: str, k: int, backend: str) -> List[dict]:
         return [{"kind": "error_after", "actor": "ut", "step": k, "exc": arg}]
     if kind == "diskfull":
         return [{"kind": "value", "actor": "ut", "step": k}]
+    if kind == "shortwrite":
+        return [{"kind": "value", "actor": "ut", "step": k, "frac": float(arg)}]
     if kind == "int":
         return [{"kind": "interrupt", "actor": "ut", "step": k, "exc": arg}]
     if kind == "intafter":
@@ -114,6 +116,9 @@ def eligible(mode: str, steps: List[tuple]) -> List[int]:
     for (_a, st, _ps, op, cls, _t) in steps:
         if kind == "diskfull":
             if op == "disk_usage":
+                out.append(st)
+        elif kind == "shortwrite":
+            if op == "write":
                 out.append(st)
         elif kind == "errafter":
             if op in ("put", "delete"):
